@@ -60,6 +60,21 @@ CHECKS = {
              'tract order / shared description, Tract.lots and .ilots agree with it on rendered lists.',
         note='Numbers in S come from boundary sets (formatting concretises them). Chained ranges (a - b - c) are outside the oracle. '
              'A warning on an equal-endpoint "range" (2 - 2) is tolerated (the statement only requires it for descending ranges).'),
+    'C07': dict(
+        engine='M+S', category='model_checking', design_ref='DESIGN.md §4 C07 and §10',
+        technique='SMT (z3): exact bounded encoding of CPython matching of the 12 live aliquot scrubber patterns, half_plus_q_regex and '
+                  'aliquot_intervener_remover_regex on spelling templates (engine M); CrossHair symbolic execution of rendered chains '
+                  'through the real Tract',
+        text='M: for each of the 8 components, every documented spelling (10 per component, 3 casings) in contexts of <= 2 (4) characters '
+             'is matched exactly by its scrubber; no other basic scrubber matches inside it; on canonical chains of 1-3 components every '
+             'scrubber (basic and clean_qq) can only re-match a canonical token of its own component (identity substitution); '
+             'half_plus_q_regex and aliquot_intervener_remover_regex put their groups on the components for 6 joiners. S: single '
+             'components (all spellings x casings x 5 configs) and two-component chains (independent spelling per component incl. the '
+             'bare quarter where allowed, 4 joiners, clean_qq on/off; thorough: all 64 component pairs x all spelling pairs x 5 configs) '
+             'give a pp_desc containing the canonical text, the same lots / aliquots as the canonical text, and a fixed point on a second '
+             'pass; a bare two-letter quarter is an aliquot exactly under clean_qq or directly after a half.',
+        note='The substitute-until-stable glue calls re.sub with compiled patterns and cannot take contract stubs; its composition is '
+             'covered by the rendered chains. Chains of 3+ components and spellings outside spec/aliquot_spellings.py are outside.'),
     'C08': dict(
         engine='M+S', category='model_checking', design_ref='DESIGN.md §4 C08',
         technique='SMT (z3): exact bounded encoding of CPython matching of the live twprge_regex and pp_twprge_* patterns on '
